@@ -184,6 +184,13 @@ def run_history(case) -> CaseResult:
                     process.stdout.write(b'x' * 8192)
                     await process.stdout.drain()
                 process.exit(0)
+            elif behaviour == 'eof-gated':
+                # end of output announced early, input consumed much later
+                process.stdout.write(b'bye\n')
+                process.stdout.write_eof()
+                await gates.wait()
+                await process.stdin.read()
+                process.exit(3)
             elif behaviour == 'never':
                 await process.stdin.read()
                 await gates.wait()
@@ -325,6 +332,23 @@ def run_history(case) -> CaseResult:
 
         for kd in pending_kinds:
             labels.add('pending:' + kd)
+
+        # a writer blocked in drain() after the peer's EOF arrived: on the
+        # client (its process saw EOF) or on the server (flood handler, the
+        # client sent EOF and stopped reading)
+        if 'drain' in pending_kinds and any(
+                getattr(p, '_eof_received', False) for p in procs):
+            labels.add('drain-blocked-after-peer-eof:client')
+
+        if behaviour == 'flood' and case['window'] < 300000 and procs and \
+                any(op[0] == 'eof' for op in list(pre) + list(case['ops'])):
+            ssess = [e for e in log if isinstance(e[0], tuple) and
+                     e[0][0] == 'ssess']
+            started = {e[0] for e in ssess if e[1] == 'connection_made'}
+            ended = {e[0] for e in ssess if e[1] == 'connection_lost'}
+
+            if started - ended:
+                labels.add('drain-blocked-after-peer-eof:server')
 
         if term[0] == 'cclose':
             h.call(pair.c.close)
@@ -613,6 +637,9 @@ SCRIPTS = [
      ['write', 0, 70000], ['drain', 0], ['pwait_closed', 0]],
     [['sftp'], ['pump'], ['fopen', 0], ['pump'], ['fread', 0, 700],
      ['fread', 0, 3], ['stat', 0]],
+    # a writer blocked in drain() AFTER the peer's EOF has arrived (client
+    # writer against 'eof-gated', server writer against 'flood')
+    [['proc'], ['pump'], ['eof', 0], ['pump']],
 ]
 
 
@@ -647,7 +674,7 @@ def strategy(tier: str):
                   pick([0, 0, 1, 3, 4, 5, 17, 40, 200])).map(list))
     return st.fixed_dictionaries({
         'server': pick(['echo', 'gated-echo', 'gated-exit', 'flood', 'never',
-                        'hello']),
+                        'hello', 'eof-gated']),
         'window': pick([2097152, 4096, 100]),
         'chunks': st.one_of(st.just([]), st.just([]),
                             st.lists(st.integers(1, 400), min_size=1,
@@ -663,7 +690,12 @@ def cut_cases(tier: str):
     d full records delivered (d = 0..7), then k bytes of the next one"""
 
     for si, script in enumerate(SCRIPTS):
-        for server in ('echo', 'gated-echo', 'hello'):
+        servers = ['echo', 'gated-echo', 'hello']
+        if ['eof', 0] in script:
+            servers += ['flood']
+        if ['drain', 0] in script:
+            servers += ['eof-gated']
+        for server in servers:
             for side in ('c', 's'):
                 for d in range(0, 8):
                     ks = [0, 1, 2, 3, 4, 5, 6, 8, 12, 16, 17, 24, 32, 40, 60]
@@ -684,7 +716,9 @@ FAMILIES = [
                      ['pending:' + k for k in
                       ('read', 'wait', 'drain', 'proc', 'sftp-read',
                        'sftp-stat', 'forward', 'run', 'wait_closed')] +
-                     ['cut-mid-record']},
+                     ['cut-mid-record',
+                      'drain-blocked-after-peer-eof:client',
+                      'drain-blocked-after-peer-eof:server']},
            case_timeout=120, timeout_is_violation=True),
     Family('refused', run_refused, enumerate=refused_cases, exhaustive=True,
            case_timeout=120, timeout_is_violation=True),
